@@ -16,6 +16,12 @@ Every item TRANSLATES a piece of the current source into a Lean term (never comp
   RichData.slices                  -> slicesXVec / slicesYVec (x[0], y[..., 0] and which is passed as x= / y=)
   Slices.__init__                  -> slicesCentreY / slicesCentreX  (np.argmin(abs(v)) -> `am v len`)
   Slices.x / Slices.y              -> sliceXTwo / sliceXOne / sliceYTwo / sliceYOne (+ ...Coord)
+  psf.autocrop                     -> autocropLo0/Hi0/Lo1/Hi1 (window per axis as a function of the integer centroid and px)
+  psf.estimate_size                -> estSizeElem, estSizeX / estSizeY (dx-only coordinates and their x / y binding)
+  RichData.support_x / support_y   -> supportX / supportY (which axis length is scaled by dx)
+  fttools.fourier_resample         -> resamplePre / resamplePost (shift pair), resampleOut0/1 (axis length x zoom factor)
+  RichData.r / .t, Slices polar cache, exact_x / exact_y, exact_xy -> three-valued facts richPolarBinds / slicesPolarBinds /
+                                      exact1dBinds / exact2dBinds (which coordinate reaches which argument / interpolator axis)
   Wavefront.pad2d / Wavefront.crop -> three-valued facts: every parameter of the delegated call is bound to the
                                       like-named argument (keyword or positional spelling is irrelevant)
 
@@ -909,6 +915,287 @@ def generate(repo):
            delegates('pad2d', 'pad2d', {'array': 'self.data', 'Q': 'Q', 'value': 'value', 'mode': 'mode', 'out_shape': 'out_shape'}))
     g.fact('wavefrontCropDelegates', 'prysm/propagation.py:Wavefront.crop',
            delegates('crop', 'crop_center', {'img': 'self.data', 'out_shape': 'out_shape'}))
+
+    # ---- psf.autocrop: the window cut around the (integer part of the) centroid, per axis
+    def autocrop():
+        fn = inl(psf, 'autocrop')
+        pos, _ = params_of(fn)
+        data, px = pos[0], pos[1]
+        # the local holding centroid(data, unit='pixels') and the pair unpacked from it, in axis order
+        cen = get_def(psf, 'centroid')
+        coms = []
+        for st in ast.walk(fn):
+            if isinstance(st, ast.Assign) and isinstance(st.value, ast.Call) and last_attr(st.value.func) == 'centroid':
+                b = bind_call(st.value, cen)
+                if ast.unparse(b.get('data')) != data or not isinstance(b.get('unit'), ast.Constant) or b['unit'].value == 'spatial':
+                    raise Untranslatable('autocrop does not ask centroid(data) for pixel units')
+                coms += [t.id for t in st.targets if isinstance(t, ast.Name)]
+        if len(coms) != 1:
+            raise Untranslatable('no single local holding centroid(data, unit=pixels)')
+        env = {px: 'px'}
+        for st in fn.body:
+            if isinstance(st, ast.Assign) and isinstance(st.targets[0], ast.Tuple) and len(st.targets[0].elts) == 2:
+                try:
+                    elt, binds = comp_parts(st.value)
+                except Untranslatable:
+                    continue
+                if list(binds.values()) == [coms[0]] and isinstance(elt, ast.Call) and last_attr(elt.func) in ('int', 'floor') \
+                        and ast.unparse(elt.args[0]) == list(binds)[0]:
+                    for k, t in enumerate(st.targets[0].elts):
+                        env[t.id] = f'c{k}'
+        if sorted(v for v in env.values() if v != 'px') != ['c0', 'c1']:
+            raise Untranslatable('no `cy, cx = (int(c) for c in com)`')
+        env = straight_env(fn, env)
+        (ret,) = find_returns(fn)
+        if not (isinstance(ret, ast.Subscript) and ast.unparse(ret.value) == data and isinstance(ret.slice, ast.Tuple)
+                and len(ret.slice.elts) == 2 and all(isinstance(s_, ast.Slice) and s_.lower is not None and s_.upper is not None
+                                                     and s_.step is None for s_ in ret.slice.elts)):
+            raise Untranslatable('autocrop does not return data[lo0:hi0, lo1:hi1]')
+        tr = Tr(env)
+        out = []
+        for k, s_ in enumerate(ret.slice.elts):
+            out.append(f'def autocropLo{k} (c0 c1 px : Int) : Int := {tr.expr(s_.lower)}')
+            out.append(f'def autocropHi{k} (c0 c1 px : Int) : Int := {tr.expr(s_.upper)}')
+        return '\n'.join(out)
+    g.item('autocrop.window', 'prysm/psf.py:autocrop', lambda: get_def(psf, 'autocrop'), autocrop,
+           '\n'.join(f'def autocropLo{k} (c0 c1 px : Int) : Int := {M}.autocropLo c{k} px\n'
+                     f'def autocropHi{k} (c0 c1 px : Int) : Int := {M}.autocropHi c{k} px' for k in (0, 1)))
+
+    # ---- psf.estimate_size: the coordinates built when only dx is given (`y, x = (fftrange(s)*dx for s in data.shape)`)
+    #      and which of them is handed to uniform_cart_to_polar as x / y
+    def est_size():
+        fn = inl(psf, 'estimate_size')
+        ucp = get_def(co, 'uniform_cart_to_polar')
+        state, elem_term = {}, None
+        for st in ast.walk(fn):
+            if isinstance(st, ast.Assign) and isinstance(st.targets[0], ast.Tuple) and len(st.targets[0].elts) == 2 \
+                    and all(isinstance(t, ast.Name) for t in st.targets[0].elts):
+                try:
+                    elt, binds = comp_parts(st.value)
+                except Untranslatable:
+                    continue
+                if list(binds.values()) != ['data.shape']:
+                    continue
+                s = list(binds)[0]
+                sr = '((s : Int) : Rat)'
+
+                def _fftrange(args):
+                    if args[0] != sr:
+                        raise Untranslatable('fftrange of something other than the axis length')
+                    return '(((fftrangeLo s + i : Int)) : Rat)'
+                arange = lambda args: '((i : Int) : Rat)' if args == [sr] else (_ for _ in ()).throw(Untranslatable('arange form'))  # noqa: E731
+                tr = Tr({s: sr, 'dx': 'dx'}, mode='rat',
+                        funcs={'fftrange': _fftrange, 'np.arange': arange, 'arange': arange})
+                elem_term = tr.expr(elt)
+                for k, t in enumerate(st.targets[0].elts):
+                    state[t.id] = k
+        if elem_term is None:
+            raise Untranslatable('no `y, x = (... for s in data.shape)`')
+        calls = find_calls(fn, 'uniform_cart_to_polar')
+        if len(calls) != 1:
+            raise Untranslatable('no single call of uniform_cart_to_polar')
+        b = bind_call(calls[0], ucp)
+        if ast.unparse(b.get('data')) != 'data' or ast.unparse(b.get('x')) not in state or ast.unparse(b.get('y')) not in state:
+            raise Untranslatable('uniform_cart_to_polar arguments')
+        length = {0: 'm', 1: 'n'}
+        return (f'def estSizeElem (s i : Int) (dx : Rat) : Rat := {elem_term}\n'
+                f'def estSizeX (m n : Int) (dx : Rat) (k : Int) : Rat := estSizeElem {length[state[ast.unparse(b["x"])]]} k dx\n'
+                f'def estSizeY (m n : Int) (dx : Rat) (k : Int) : Rat := estSizeElem {length[state[ast.unparse(b["y"])]]} k dx')
+    g.item('estimate_size.grid', 'prysm/psf.py:estimate_size', lambda: get_def(psf, 'estimate_size'), est_size,
+           f'def estSizeElem (s i : Int) (dx : Rat) : Rat := {M}.gridElem s i dx\n'
+           f'def estSizeX (m n : Int) (dx : Rat) (k : Int) : Rat := {M}.vecX m n dx k\n'
+           f'def estSizeY (m n : Int) (dx : Rat) (k : Int) : Rat := {M}.vecY m n dx k')
+
+    # ---- RichData.support_x / support_y: which axis length is scaled by dx
+    def rich_support():
+        out = []
+        for prop, lean in (('support_x', 'supportX'), ('support_y', 'supportY')):
+            (fn,) = [n for n in get_def(rd, 'RichData').body if isinstance(n, ast.FunctionDef) and n.name == prop]
+            ret = the_return(fn.body)
+            if isinstance(ret, ast.Call) and last_attr(ret.func) == 'float' and len(ret.args) == 1:
+                ret = ret.args[0]
+            env = {'self.dx': 'dx'}
+            for base in ('self.shape', 'self.data.shape'):
+                env[f'{base}[0]'] = '((m : Int) : Rat)'
+                env[f'{base}[1]'] = '((n : Int) : Rat)'
+            out.append(f'def {lean} (m n : Int) (dx : Rat) : Rat := {Tr(env, mode="rat").expr(ret)}')
+        return '\n'.join(out)
+    g.item('RichData.support', 'prysm/_richdata.py:RichData.support_x', lambda: get_def(rd, 'RichData.support_x'), rich_support,
+           f'def supportX (m n : Int) (dx : Rat) : Rat := {M}.supportX m n dx\n'
+           f'def supportY (m n : Int) (dx : Rat) : Rat := {M}.supportY m n dx')
+
+    # ---- fttools.fourier_resample: the shift pair around the forward FFT and which axis length is zoomed by which factor
+    def resample():
+        fn = inl(ft, 'fourier_resample')
+        by = {'fftshift': 'npFftshiftBy', 'ifftshift': 'npIfftshiftBy'}
+        # only the statements up to the first top-level return are live
+        live = []
+        for st in fn.body:
+            live.append(st)
+            if isinstance(st, ast.Return):
+                break
+        chains = []
+        for st in live:
+            for c in ast.walk(st):
+                if isinstance(c, ast.Call) and last_attr(c.func) in by and len(c.args) == 1 and isinstance(c.args[0], ast.Call) \
+                        and last_attr(c.args[0].func) in ('fft2', 'fftn') and c.args[0].args \
+                        and isinstance(c.args[0].args[0], ast.Call) and last_attr(c.args[0].args[0].func) in by:
+                    chains.append((last_attr(c.args[0].args[0].func), last_attr(c.func)))
+        if len(chains) != 1:
+            raise Untranslatable('fourier_resample: shift(fft2(shift(f))) chain not found')
+        shp = None
+        for st in live:
+            if isinstance(st, ast.Assign) and isinstance(st.targets[0], ast.Tuple) and ast.unparse(st.value) == 'f.shape':
+                shp = [t.id for t in st.targets[0].elts]
+        if shp is None or len(shp) != 2:
+            raise Untranslatable('no `m, n = f.shape`')
+        calls = [c for st in live for c in ast.walk(st) if isinstance(c, ast.Call) and last_attr(c.func) == 'idft2']
+        if len(calls) != 1 or len(calls[0].args) < 3 or not isinstance(calls[0].args[2], ast.Tuple) or len(calls[0].args[2].elts) != 2:
+            raise Untranslatable('no idft2(F, zoom, (M, N))')
+        wrapped = ast.FunctionDef(name='_', args=fn.args, body=live, decorator_list=[], lineno=0)
+        env = {shp[0]: '((m : Int) : Rat)', shp[1]: '((n : Int) : Rat)', 'zoom[0]': 'z0', 'zoom[1]': 'z1'}
+        tr = Tr(env, mode='rat')
+        terms = [tr.expr(expand_locals(e, wrapped, stop=shp + ['zoom'])) for e in calls[0].args[2].elts]
+        pre, post = chains[0]
+        return (f'def resamplePre (dim : Int) : Int := {by[pre]} dim\ndef resamplePost (dim : Int) : Int := {by[post]} dim\n'
+                f'def resampleOut0 (m n : Int) (z0 z1 : Rat) : Rat := {terms[0]}\n'
+                f'def resampleOut1 (m n : Int) (z0 z1 : Rat) : Rat := {terms[1]}')
+    g.item('fourier_resample', 'prysm/fttools.py:fourier_resample', lambda: get_def(ft, 'fourier_resample'), resample,
+           f'def resamplePre (dim : Int) : Int := {M}.npIfftshiftBy dim\ndef resamplePost (dim : Int) : Int := {M}.npFftshiftBy dim\n'
+           f'def resampleOut0 (m n : Int) (z0 z1 : Rat) : Rat := {M}.resampleOut m z0\n'
+           f'def resampleOut1 (m n : Int) (z0 z1 : Rat) : Rat := {M}.resampleOut n z1')
+
+    # ---- derived RichData / Slices members: which coordinate reaches which argument (three-valued facts)
+    def order_preserving(mod, name):
+        """does helper `name(a, b)` return `(a, b)` (its two parameters, in order) on every return?"""
+        h = get_def(mod, name)
+        pos, _ = params_of(h)
+        rets = [r for r in ast.walk(h) if isinstance(r, ast.Return)]
+        return bool(rets) and all(isinstance(r.value, ast.Tuple) and [ast.unparse(e) for e in r.value.elts] == pos[:2] for r in rets)
+
+    def origins(fn, seed):
+        """follow two coordinate values through the straight-line body of fn: {local name: tag}; identity wrappers
+        (ascontiguousarray / squeeze / asarray) and order-preserving pair helpers keep the tag; anything else drops it"""
+        tags = dict(seed)
+        keep = ('ascontiguousarray', 'squeeze', 'asarray', 'array')
+        pairs = {'optimize_xy_separable': co, 'fix_interp_pair': rd}
+
+        def tag_of(e):
+            t = ast.unparse(e)
+            if t in tags:
+                return tags[t]
+            if isinstance(e, ast.Call) and last_attr(e.func) in keep and len(e.args) == 1:
+                return tag_of(e.args[0])
+            return None
+        for st in fn.body:
+            if not isinstance(st, ast.Assign) or len(st.targets) != 1:
+                continue
+            tg, v = st.targets[0], st.value
+            if isinstance(tg, ast.Tuple) and isinstance(v, ast.Tuple) and len(tg.elts) == len(v.elts):
+                new_ = [tag_of(e) for e in v.elts]
+                for t, n_ in zip(tg.elts, new_):
+                    tags[ast.unparse(t)] = n_
+            elif isinstance(tg, ast.Tuple) and isinstance(v, ast.Call) and last_attr(v.func) in pairs and len(v.args) == 2 \
+                    and len(tg.elts) == 2 and not v.keywords:
+                if not order_preserving(pairs[last_attr(v.func)], last_attr(v.func)):
+                    raise Untranslatable(f'{last_attr(v.func)} does not return its parameters in order')
+                new_ = [tag_of(e) for e in v.args]
+                for t, n_ in zip(tg.elts, new_):
+                    tags[ast.unparse(t)] = n_
+            elif isinstance(tg, ast.Tuple) and ast.unparse(v) in tags and isinstance(tags[ast.unparse(v)], tuple):
+                for k, t in enumerate(tg.elts):                      # `ux, x = slc.x`  (coords, values)
+                    tags[ast.unparse(t)] = tags[ast.unparse(v)] + (k,)
+            else:
+                tags[ast.unparse(tg)] = tag_of(v)
+        return tags, tag_of
+
+    def verdict(got, want):
+        """True when every binding is the wanted tag, False when a wanted tag sits on the wrong parameter, None otherwise"""
+        if got == want:
+            return True
+        vals = list(want.values())
+        if all(g in vals for g in got.values()) and set(got) == set(want):
+            return False
+        return None
+
+    def rich_polar():
+        c2p = get_def(co, 'cart_to_polar')
+        res = []
+        for prop, slot in (('r', 0), ('t', 1)):
+            (fn,) = [n for n in get_def(rd, 'RichData').body if isinstance(n, ast.FunctionDef) and n.name == prop
+                     and any(ast.unparse(d) == 'property' for d in n.decorator_list)]
+            (call,) = find_calls(fn, 'cart_to_polar')
+            b = {k: ast.unparse(v) for k, v in bind_call(call, c2p).items() if k in ('x', 'y')}
+            v = verdict(b, {'x': 'self.x', 'y': 'self.y'})
+            (asg,) = [s_ for s_ in ast.walk(fn) if isinstance(s_, ast.Assign) and s_.value is call]
+            tg = [ast.unparse(t) for t in asg.targets[0].elts]
+            (ret,) = find_returns(fn)
+            if ast.unparse(ret) not in tg:
+                return None
+            res += [v, tg.index(ast.unparse(ret)) == slot]
+        return None if any(r is None for r in res) else all(res)
+    g.fact('richPolarBinds', 'prysm/_richdata.py:RichData.r,t', rich_polar)
+
+    def slices_polar():
+        fn = get_def(rd, 'Slices.check_polar_calculated')
+        (call,) = find_calls(fn, 'uniform_cart_to_polar')
+        b = {k: ast.unparse(v) for k, v in bind_call(call, get_def(co, 'uniform_cart_to_polar')).items()}
+        return verdict(b, {'x': 'self._x', 'y': 'self._y', 'data': 'self._source'})
+    g.fact('slicesPolarBinds', 'prysm/_richdata.py:Slices.check_polar_calculated', slices_polar)
+
+    def exact_1d():
+        fn = get_def(rd, 'RichData._make_interp_function_xy1d')
+        slc = [ast.unparse(s_.targets[0]) for s_ in fn.body if isinstance(s_, ast.Assign) and isinstance(s_.value, ast.Call)
+               and ast.unparse(s_.value.func) == 'self.slices']
+        if len(slc) != 1:
+            return None
+        tags, tag_of = origins(fn, {f'{slc[0]}.x': ('x',), f'{slc[0]}.y': ('y',)})
+        res = []
+        for ax in 'xy':
+            (asg,) = [s_ for s_ in ast.walk(fn) if isinstance(s_, ast.Assign) and ast.unparse(s_.targets[0]) == f'self.interpf_{ax}']
+            if not (isinstance(asg.value, ast.Call) and last_attr(asg.value.func) == 'interp1d' and len(asg.value.args) >= 2):
+                return None
+            got = {'coords': tag_of(asg.value.args[0]), 'values': tag_of(asg.value.args[1])}
+            # both arguments traced back to a slice member: right iff they are (coords, values) of THIS axis' slice
+            res.append(None if None in got.values() else got == {'coords': (ax, 0), 'values': (ax, 1)})
+            ex = get_def(rd, f'RichData.exact_{ax}')
+            (ret,) = find_returns(ex)
+            res.append(isinstance(ret, ast.Call) and ast.unparse(ret.func) == f'self.interpf_{ax}'
+                       and [ast.unparse(a) for a in ret.args] == [params_of(ex, skip_self=True)[0][0]])
+        return None if any(r is None for r in res) else all(res)
+    g.fact('exact1dBinds', 'prysm/_richdata.py:RichData.exact_x,exact_y', exact_1d)
+
+    def exact_2d():
+        fn = get_def(rd, 'RichData._make_interp_function_2d')
+        tags, tag_of = origins(fn, {'self.x': 'X', 'self.y': 'Y'})
+        (call,) = [c for c in ast.walk(fn) if isinstance(c, ast.Call) and last_attr(c.func) == 'RegularGridInterpolator']
+        if not (isinstance(call.args[0], ast.Tuple) and len(call.args[0].elts) == 2 and ast.unparse(call.args[1]) == 'self.data'):
+            return None
+        got = {k: tag_of(e) for k, e in zip(('axis0', 'axis1'), call.args[0].elts)}
+        res = [verdict(got, {'axis0': 'Y', 'axis1': 'X'}) if None not in got.values() else None]
+        ex = get_def(rd, 'RichData.exact_xy')
+        tags2, tag_of2 = origins(ex, {'x': 'X', 'y': 'Y'})
+        (ret,) = find_returns(ex)
+        if not (isinstance(ret, ast.Call) and ast.unparse(ret.func) == 'self.interpf_2d' and isinstance(ret.args[0], ast.Tuple)):
+            return None
+        got2 = {k: tag_of2(e) for k, e in zip(('axis0', 'axis1'), ret.args[0].elts)}
+        res.append(verdict(got2, {'axis0': 'Y', 'axis1': 'X'}) if None not in got2.values() else None)
+        return None if any(r is None for r in res) else all(res)
+    g.fact('exact2dBinds', 'prysm/_richdata.py:RichData.exact_xy', exact_2d)
+
+    # ---- propagation.focus / unfocus: the Q-pad in front of the FFT is fttools.pad2d(array=wavefunction, Q=Q) and its result is
+    #      what the shift / FFT chain consumes when Q != 1
+    def focus_pad():
+        res = []
+        for fname in ('focus', 'unfocus'):
+            fn = get_def(pr, fname)
+            calls = find_calls(fn, 'pad2d')
+            if len(calls) != 1:
+                return None
+            got = {k: ast.unparse(v) for k, v in bind_call(calls[0], get_def(ft, 'pad2d')).items()}
+            res.append(verdict(got, {'array': 'wavefunction', 'Q': 'Q'}))
+        return None if any(r is None for r in res) else all(res)
+    g.fact('focusPadBinds', 'prysm/propagation.py:focus,unfocus', focus_pad)
 
     return g.finish()
 
